@@ -31,7 +31,6 @@ from __future__ import annotations
 
 import ast
 
-from ..flow import guard_texts
 from ..memokey import check_memo_keys
 from ..model import AnalysisError, norm
 from ..report import Report
